@@ -5,6 +5,7 @@ from . import runner
 
 PROPS = {
     'C01': 'rsym.props.c01',
+    'C02': 'rsym.props.c02',
     'C03': 'rsym.props.c03',
     'C04': 'rsym.props.c04',
     'C06': 'rsym.props.c06',
